@@ -294,11 +294,29 @@ def _worker(args):
     return errs, sigs
 
 
+_P61 = 2 ** 61 - 1        # CPython: hash(n) == hash(n + 2**61 - 1) for ints -- two different keys, one hash
+
+
+def congruent_programs():
+    """two DIFFERENT keys of the same kind whose arguments are numbers with the same CPython hash, in one program (they
+    are ANDed): the answer must be that of the conjunction, whatever order they come in"""
+    out = []
+    for n in SIZES:
+        for kind in ('SMALLER', 'LARGER'):
+            a, b = (kind, n), (kind, n + _P61)
+            out += [(a, b), (b, a), (('OR', a, b),), (('NOT', a), b), (b, ('NOT', a))]
+    for a, b in ((('SEQ', '2'), ('SEQ', str(2 + _P61))), (('UIDSET', '102'), ('UIDSET', str(102 + _P61))),
+                 (('SEQ', '2:3'), ('SEQ', f'{2 + _P61}:{3 + _P61}'))):
+        out += [(a, b), (b, a), (('OR', a, b),), (('OR', b, a),)]
+    return out
+
+
 def programs(tier, seed):
     import random
     leaves = leaf_keys()
     progs = [(k,) for k in leaves]
     progs += [(('NOT', k),) for k in leaves]
+    progs += congruent_programs()
     rnd = random.Random(seed)
     pick = lambda: rnd.choice(leaves)
     n2 = 1500 if tier == 'quick' else 12000
